@@ -61,6 +61,9 @@ def execute(spec, want=("C01",), keep_trace=False):
             relay.fault_to = t0 + spec["fault_ms"][1] * 1000
         if "blackout_ms" in spec:
             relay.blackout = [(d, t0 + a * 1000, t0 + b * 1000) for d, a, b in spec["blackout_ms"]]
+        if spec.get("relay_hs_only"):
+            relay.qcase = relay.acase = relay.qpunct = relay.apunct = "keep"
+            relay.q8 = relay.a8 = "clean"
         relay.count = {"q": 0, "a": 0}
         relay.plan = {(d, n): f for d, n, f in spec.get("plan", [])}
         relay.redeliver = {int(k): v for k, v in spec.get("redeliver", {}).items()}
@@ -310,3 +313,85 @@ def abs_c16(w, sess, frames, t0, hs_len, res):
 
 
 ABSTRACT["C16"] = abs_c16
+
+
+def abs_c02(w, sess, frames, t0, hs_len, res):
+    """Mode / Accept / Write / Exit / End events for MonProgress (single client)."""
+    import zlib
+    import codec as CD
+    spec = res["spec"]
+    mode = spec.get("mode", "clean")
+    post_ms = spec.get("post_ms", 0)
+    evs = [{"e": "Mode", "m": mode}]
+    users = res["stats"].get("users") or [{}]
+    F = users[0].get("fragsize", 100)
+    enc = CD.NAMES.get(users[0].get("enc"), "b32")
+    raw = users[0].get("conn") == 0
+    # upstream capacity: largest decoded payload seen in a data query of the client
+    upcap = 1
+    pend = None
+    accepted = []
+    for e in w.trace:
+        ev = e["ev"]
+        if ev == "Send" and e["inst"] == "C0":
+            d = e["data"]
+            if d[:3] == proto.RAW_HDR:
+                if pend is not None:
+                    accepted.append(pend)
+                    pend = None
+                continue
+            m = D.parse(d)
+            if m.qd and not m.errors:
+                c = proto.classify_query(m.qd[0][0], sess.domain)
+                if c["kind"] == "data":
+                    upcap = max(upcap, CD.declen(enc, len(c["enc"])))
+                    if pend is not None:
+                        accepted.append(pend)
+                        pend = None
+        elif ev == "TunRead" and e["data"] is not None:
+            p = frames.get(e["data"])
+            if p is None:
+                continue
+            if e["inst"] == "S":
+                accepted.append((e["t"], "C0", p, e["data"]))
+            else:
+                pend = (e["t"], "S", p, e["data"])
+        elif ev == "Select" and e["inst"] == "C0":
+            pend = None
+    acc = {}
+    for t, to, p, fr in accepted:
+        clen = len(zlib.compress(fr, 9))
+        if raw:
+            must = True
+        elif to == "S":
+            must = (clen + upcap - 1) // upcap <= 15
+        else:
+            must = (clen + F - 1) // max(F, 1) <= 15
+        if mode == "faulty" and (t - t0) < post_ms * 1000:
+            continue
+        acc.setdefault(t, []).append({"e": "Accept", "to": to, "p": p, "t": t // 1000, "must": must})
+    out = []
+    worst = 0
+    tacc = {}
+    for e in w.trace:
+        if e["ev"] == "TunRead" and e["t"] in acc:
+            for a in acc.pop(e["t"]):
+                out.append(a)
+                tacc[(a["to"], a["p"])] = a["t"]
+        elif e["ev"] == "TunWrite":
+            p = frames.get(e["data"], 0)
+            if p:
+                out.append({"e": "Write", "side": e["inst"], "p": p, "t": e["t"] // 1000})
+                if (e["inst"], p) in tacc:
+                    worst = max(worst, e["t"] // 1000 - tacc[(e["inst"], p)])
+        elif e["ev"] == "Exit":
+            out.append({"e": "Exit", "inst": e["inst"], "t": e["t"] // 1000})
+    out.append({"e": "End", "t": w.now // 1000})
+    res["stats"]["worst_latency_ms"] = worst
+    res["stats"]["accepted"] = sum(1 for x in out if x["e"] == "Accept")
+    res["stats"]["must"] = sum(1 for x in out if x["e"] == "Accept" and x["must"])
+    res["stats"]["upcap"] = upcap
+    return evs + out
+
+
+ABSTRACT["C02"] = abs_c02
